@@ -66,6 +66,20 @@ static void bee_min_release(struct aws_allocator *a, void *p) {
 static struct aws_allocator bee_min_alloc = {.mem_acquire = bee_min_acquire, .mem_release = bee_min_release, .mem_realloc = NULL, .mem_calloc = NULL, .impl = NULL};
 static inline struct aws_allocator *bee_min_allocator(void) { return &bee_min_alloc; }
 
+/* ... and one whose realloc always moves the block to a new one of exactly the new size, also when shrinking (the stock
+ * allocator keeps the block when asked to shrink, so nothing notices a capacity recorded larger than the storage) */
+static void *bee_mv_realloc(struct aws_allocator *a, void *p, size_t oldsize, size_t newsize) {
+    (void)a;
+    void *q = malloc(newsize ? newsize : 1);
+    if (p) {
+        memcpy(q, p, oldsize < newsize ? oldsize : newsize);
+        free(p);
+    }
+    return q;
+}
+static struct aws_allocator bee_mv_alloc = {.mem_acquire = bee_min_acquire, .mem_release = bee_min_release, .mem_realloc = bee_mv_realloc, .mem_calloc = NULL, .impl = NULL};
+static inline struct aws_allocator *bee_moving_allocator(void) { return &bee_mv_alloc; }
+
 /* exact-size heap block holding a copy of src (one-byte over-reads become ASan errors) */
 static uint8_t *bee_block(const void *src, size_t n) {
     uint8_t *p = (uint8_t *)malloc(n ? n : 1);
